@@ -471,7 +471,7 @@ def anchored(ctx, col):
     # the axis enters only through abs() / count_nonzero() / != 0 turns -n and +n into the same rotation
     r3 = repo.get_def(f"{UT}.rotate3d")
     axis_p = r3.params[0]
-    KILL = ("abs", "count_nonzero", "nonzero", "square", "argmax", "argmin")
+    KILL = ("abs", "absolute", "fabs", "count_nonzero", "nonzero", "flatnonzero", "argwhere", "square", "argmax", "argmin", "any", "all")
     assigns = [a for a in own_nodes(r3) if isinstance(a, ast.Assign)]
     for ret in [x for x in own_nodes(r3) if isinstance(x, ast.Return) and x.value is not None]:
         exprs = [ret.value]
